@@ -16,6 +16,7 @@ var errSentinel = errors.New("verif sentinel failure")
 type Spies struct {
 	mu     sync.Mutex
 	Log    []string
+	FailErr error // the error of the failing invocation (nil: errSentinel)
 	FailAt int // 1-based; 0 = never
 	count  int
 	Calls  map[string]int
@@ -64,6 +65,9 @@ func (s *Spies) hit(name string, arg interface{}) error {
 	s.Calls[name]++
 	s.Log = append(s.Log, name+"("+showModel(normalise(arg))+")")
 	if s.FailAt == s.count {
+		if s.FailErr != nil {
+			return s.FailErr
+		}
 		return errSentinel
 	}
 	return nil
